@@ -86,6 +86,20 @@ chk(
     "MIR path enumeration with affine normalisation + finite-ordering comparison with a reference tree + dominance",
 )
 
+chk(
+    "C05",
+    "Default-deny inventory over all code reachable from compile/search/conversion: every MIR Assert, panicking call, "
+    "Index::index call and deny-listed std API must be discharged by a proof rule whose side conditions are dominance / "
+    "provenance facts checked on the CFG (validated-argument index, constant index, guarded counter, non-empty and len>=k "
+    "guards, arity-equal index, iteration counter, dead arm by validated kind, token-range type invariant, slice routine = "
+    "reference tree); every CFG cycle must contain a progress construct; every recursive call-graph SCC must be bounded. "
+    "Recursion over input nesting (parser, evaluator, syntax-tree traversals) has no depth guard: recorded as known "
+    "findings with reproducing inputs.",
+    "Trusted: std/serde callees outside the deny-list do not panic; rustc emits Asserts for checked operations; JSON "
+    "nesting is bounded by serde_json; allocation failure and time complexity are out of scope.",
+    "panic-site inventory with proof-rule discharge (dominance, provenance, interval and char-class dataflow) + loop-progress and call-graph SCC rules",
+)
+
 for pid in [f"C{n:02d}" for n in range(1, 19)]:
     if pid not in CHECKS and pid not in NOT_APPLICABLE:
         na(pid, "check not implemented yet in this revision of /verif (work in progress; see DESIGN.md §3)")
